@@ -8,12 +8,12 @@ open XotModel.Props
 #print axioms C05_append_resident
 #print axioms C05_append
 #print axioms C05_samepos_append
-#print axioms C05_prepend_partial
-#print axioms C05_prepend_resident_partial
-#print axioms C05_insertAfter_partial
-#print axioms C05_insertAfter_resident_partial
-#print axioms C05_insertBefore_partial
-#print axioms C05_insertBefore_resident_partial
+#print axioms C05_prepend
+#print axioms C05_prepend_resident
+#print axioms C05_insertAfter
+#print axioms C05_insertAfter_resident
+#print axioms C05_insertBefore
+#print axioms C05_insertBefore_resident
 #print axioms C05_samepos_prepend
 #print axioms C05_samepos_insertAfter
 #print axioms C05_samepos_insertBefore
